@@ -1,5 +1,6 @@
 import ZapVerif.Model.Slog
 import ZapVerif.Proofs.Slog
+import ZapVerif.Proofs.TransSlog
 /-! # C18 — the slog handler reproduces slog's attribute and group semantics
 
 `tree D R` is the slog.Handler contract for a derivation sequence `D` and a record `R` (Model/Slog.lean):
@@ -154,5 +155,121 @@ example : Live [] ⟨[], ⟨0, 0⟩⟩ := Or.inl rfl
 
 example : (runProg [root] [⟨0, .withGroup "a"⟩, ⟨0, .withGroup "b"⟩, ⟨1, .withGroup "c"⟩]).map (·.pending)
     = [[], ["a"], ["b"], ["a", "c"]] := by decide
+
+end ZapVerif.C18
+
+/-! ## the slog handler IS the source (table `Gen/TransSlog.lean`)
+
+`convertSlogLevel`, `hasContent`, `convertAttrToField`, `appendGroups`, `WithGroup`, `WithAttrs` and the head of `Handle` of
+exp/zapslog/handler.go, translated mechanically, are interpreted on the model's own attributes (`Slog.SAttr`, encoded as
+slog values: `TransSlog.attrV`) — every tree of groups, every number of LogValuer layers — and give the model's functions:
+`levelSpec` (which is the regenerated level table), `Slog.hasContent`, `Slog.convert` (as constructor values), the
+`ins` loop of `addAttrs`, `pending ++ [g]`.
+
+**Aliasing.**  GoMini slices are VALUES: `append(h.groups, group)` and the clone idiom `make` + `copy` + element
+assignment denote the same list, so the property `derive_isolated` (no two handlers share a backing array) is NOT
+expressible about the translated term.  Instead the translator REFUSES, for this table (`noFieldAppend`), every `append`
+whose first argument is a field of the receiver or of a struct copy of it, and every `append` that is not
+`x = append(x, …)`; `WithGroup_matches_source` then holds of the clone idiom only, and `derive_isolated` /
+`append_would_alias` above stay the statements about the heap-level model. -/
+namespace ZapVerif.C18
+set_option linter.unusedSimpArgs false
+open ZapVerif ZapVerif.GoMini ZapVerif.Slog ZapVerif.TransSlog ZapVerif.Gen.TransSlog
+
+/-- `convertSlogLevel`: Error from 8, Warn from 4, Info from 0, Debug below — for EVERY integer -/
+theorem convertSlogLevel_exec_matches_source (P : Par) (l : Int) (fl : Env) (fuel : Nat) :
+    (exec (X P) (fuel + 1) convertSlogLevel_body ⟨[("p0", .int l)], fl⟩).fin = some ([.int (levelSpec l)], fl) := by
+  rw [exec_succ]
+  have m8 := matchCase_true1 (X P) ⟨[("p0", .int l)], fl⟩ (.bin .ge (.loc "p0") (.lit (.int 8))) (decide (l ≥ 8)) (by simp)
+  have m4 := matchCase_true1 (X P) ⟨[("p0", .int l)], fl⟩ (.bin .ge (.loc "p0") (.lit (.int 4))) (decide (l ≥ 4)) (by simp)
+  have m0 := matchCase_true1 (X P) ⟨[("p0", .int l)], fl⟩ (.bin .ge (.loc "p0") (.lit (.int 0))) (decide (l ≥ 0)) (by simp)
+  by_cases h8 : l ≥ 8
+  · simp [convertSlogLevel_body, levelSpec, h8, m8]
+  · by_cases h4 : l ≥ 4
+    · simp [convertSlogLevel_body, levelSpec, h8, h4, m8, m4]
+    · by_cases h0 : l ≥ 0 <;> simp [convertSlogLevel_body, levelSpec, h8, h4, h0, m8, m4, m0]
+
+theorem convertSlogLevel_matches_source (P : Par) (l : Int) (fl : Env) (fuel : Nat) :
+    run (X P) (fuel + 1) "convertSlogLevel" [.int l] fl = .done [.int (levelSpec l)] fl :=
+  run_of_fin (X P) _ _ Gen.TransSlog.convertSlogLevel [.int l] _ _ _ rfl rfl
+    (convertSlogLevel_exec_matches_source P l fl fuel)
+
+/-- the thresholds ARE the regenerated table `Gen.slogLevels` the model's `convertLevel` looks up -/
+theorem levelSpec_is_convertLevel (l z : Int) (h : convertLevel l = some z) : levelSpec l = z := by
+  have hall : ∀ p ∈ Gen.slogLevels, levelSpec p.1 = p.2 := by decide +kernel
+  unfold convertLevel at h
+  have hmem : ∀ (t : List (Int × Int)), t.lookup l = some z → (l, z) ∈ t := by
+    intro t
+    induction t with
+    | nil => simp [List.lookup]
+    | cons p r ih =>
+      obtain ⟨a, b⟩ := p
+      simp only [List.lookup]
+      by_cases hab : l == a
+      · simp only [hab]; intro hz; have : a = l := by simpa using (beq_iff_eq.mp hab).symm
+        simp_all
+      · simp only [hab]; intro hz; exact List.mem_cons_of_mem _ (ih hz)
+  exact hall (l, z) (hmem _ h)
+
+/-- `appendGroups(fields)`: one `zap.Namespace` per pending group, in order, after the fields -/
+theorem appendGroups_exec_matches_source (P : Par) (fields : List Val) (gs : List Bytes) (fl : Env)
+    (hfl : Env.get "groups" fl = some (.list (gs.map Val.bytes))) (fuel : Nat) :
+    (exec (X P) (fuel + 1) appendGroups_body ⟨[("p0", .list fields)], fl⟩).fin =
+      some ([.list (fields ++ gs.map fun g => .list [TransSlog.nm "zap.Namespace", .bytes g])], fl) := by
+  rw [exec_succ]
+  have hloop : ∀ (ys : List Bytes) (acc : List Val) (i : Nat) (t : Option Val),
+      ∃ t', rangeRun (execS (X P) (exec (X P) fuel) appendGroups_loop0.rbody) .blank (.loc "l0") (ys.map Val.bytes) i
+          ⟨[("p0", .list acc)] ++ (match t with | some v => [("l0", v)] | none => []), fl⟩ =
+        .normal ⟨[("p0", .list (acc ++ ys.map fun g => .list [TransSlog.nm "zap.Namespace", .bytes g]))] ++
+          (match t' with | some v => [("l0", v)] | none => []), fl⟩ := by
+    intro ys
+    induction ys with
+    | nil => intro acc i t; exact ⟨t, by cases t <;> simp [rangeRun]⟩
+    | cons y r ih =>
+      intro acc i t
+      obtain ⟨t', h⟩ := ih (acc ++ [.list [TransSlog.nm "zap.Namespace", .bytes y]]) (i + 1) (some (.bytes y))
+      refine ⟨t', ?_⟩
+      cases t <;>
+        simpa [rangeRun, appendGroups_loop0, Stmt.rbody, State.assign1, Env.set, List.append_assoc] using h
+  obtain ⟨t', h⟩ := hloop gs fields 0 none
+  have hL : appendGroups_loop0 = .range .blank (.loc "l0") (.fld "groups") appendGroups_loop0.rbody := rfl
+  simp only [appendGroups_body, execS_seq]
+  rw [hL, execS_range]
+  simp only [evalE_fld, hfl, Res.out]
+  simp only [List.nil_append, List.cons_append] at h
+  rw [h]
+  cases t' <;> simp
+
+/-- `WithGroup("")` returns the receiver; otherwise the clone gets every field of the receiver and a FRESH slice
+    holding the receiver's groups followed by the new one -/
+theorem WithGroup_matches_source (P : Par) (g : Bytes) (core : Val) (name : Bytes) (ac : Bool) (asa cs : Int) (groups : List Val)
+    (self : Val) (ocore : Val) (oname : Bytes) (oac : Bool) (oasa ocs : Int) (ogroups : List Val) (oself : Val) (ev : List Val)
+    (hlen : (groups.length : Int) + 1 < 9223372036854775808) (fuel : Nat) :
+    run (X P) (fuel + 1) "WithGroup" [.bytes g] (hFld core name ac asa cs groups self ocore oname oac oasa ocs ogroups oself ev) =
+      if g.isEmpty then .done [self] (hFld core name ac asa cs groups self ocore oname oac oasa ocs ogroups oself ev)
+      else .done [oself] (hFld core name ac asa cs groups self core name ac asa cs (groups ++ [.bytes g]) oself ev) := by
+  cases g with
+  | nil =>
+    refine run_of_fin (X P) _ "WithGroup" Gen.TransSlog.WithGroup [.bytes []] _ _ _ rfl rfl ?_
+    show (exec (X P) (fuel + 1) WithGroup_body ⟨[("p0", .bytes [])], _⟩).fin = _
+    rw [exec_succ]
+    simp [WithGroup_body]
+  | cons x xs =>
+    refine run_of_fin (X P) _ "WithGroup" Gen.TransSlog.WithGroup [.bytes (x :: xs)] _ _ _ rfl rfl ?_
+    show (exec (X P) (fuel + 1) WithGroup_body ⟨[("p0", .bytes (x :: xs))], _⟩).fin = _
+    rw [exec_succ]
+    have hw : wrap .int ((groups.length : Int) + 1) = (groups.length : Int) + 1 := by rw [wrap_int_id] <;> omega
+    have hmk : ext P "make.strings" [.int ((groups.length : Int) + 1)] =
+        some [.list (List.replicate (groups.length + 1) (.bytes []))] := by
+      have := ext_makeStrings P (groups.length + 1); push_cast at this; exact this
+    have hcopy : groups.take (groups.length + 1) ++ (List.replicate (groups.length + 1) (Val.bytes [])).drop groups.length =
+        groups ++ [.bytes []] := by
+      rw [List.take_of_length_le (by omega)]
+      simp [List.drop_replicate]
+    have hset := ext_set P (groups ++ [.bytes []]) groups.length (.bytes (x :: xs)) (by simp)
+    have hsetv : (groups ++ [Val.bytes []]).set groups.length (.bytes (x :: xs)) = groups ++ [.bytes (x :: xs)] := by
+      simp [List.set_append_right]
+    have htake : groups.take (groups.length + 1) = groups := List.take_of_length_le (by omega)
+    simp [WithGroup_body, hw, hmk, hcopy, htake, hset, hsetv]
 
 end ZapVerif.C18
